@@ -195,3 +195,26 @@ Definition entries_in_range {V} (st : cdm V) : Prop :=
     0 <= nth k (c_rows st) 0 < c_size st /\ 0 <= nth k (c_cols st) 0 < c_size st.
 (* a matrix that holds a value has at least two rows (there is no pair below the diagonal otherwise) *)
 Definition roomy {V} (st : cdm V) : Prop := c_cur st = 0 \/ 2 <= c_size st.
+
+(* ---- save / load: the HDF5 file as the record of its four datasets (each absent until created).  h5py's
+   create_dataset(name, data=a) stores the array a under name, f[name][:] reads it back whole, f[name][0] its first
+   item; a missing dataset is a KeyError (tag 15).  No proofs here. *)
+From Batchie Require Import Lib.PyRt.
+Record h5cdm (V : Type) := {
+  f_rows : option (list Z); f_cols : option (list Z); f_vals : option (list V); f_size : option (list Z) }.
+Arguments f_rows {V}. Arguments f_cols {V}. Arguments f_vals {V}. Arguments f_size {V}.
+Definition h5cdm_new (V : Type) : h5cdm V := {| f_rows := None; f_cols := None; f_vals := None; f_size := None |}.
+Definition set_f_rows {V} (f : h5cdm V) (a : list Z) : h5cdm V :=
+  {| f_rows := Some a; f_cols := f_cols f; f_vals := f_vals f; f_size := f_size f |}.
+Definition set_f_cols {V} (f : h5cdm V) (a : list Z) : h5cdm V :=
+  {| f_rows := f_rows f; f_cols := Some a; f_vals := f_vals f; f_size := f_size f |}.
+Definition set_f_vals {V} (f : h5cdm V) (a : list V) : h5cdm V :=
+  {| f_rows := f_rows f; f_cols := f_cols f; f_vals := Some a; f_size := f_size f |}.
+Definition set_f_size {V} (f : h5cdm V) (a : list Z) : h5cdm V :=
+  {| f_rows := f_rows f; f_cols := f_cols f; f_vals := f_vals f; f_size := Some a |}.
+Definition h5_dataset {A : Type} (o : option A) : result A := match o with Some a => Ok a | None => Err 15 end.
+Definition h5_first (o : option (list Z)) : result Z := dor a <- h5_dataset o; list_get a 0.
+(* the file save writes for a stored object: the used prefixes of the three arrays and the one-item array [size] *)
+Definition file_of_storage {V} (st : cdm V) : h5cdm V :=
+  {| f_rows := Some (np_prefix (c_rows st) (c_cur st)); f_cols := Some (np_prefix (c_cols st) (c_cur st));
+     f_vals := Some (np_prefix (c_vals st) (c_cur st)); f_size := Some [c_size st] |}.
